@@ -10,6 +10,7 @@ Every check does, in this order:
 """
 import fcntl
 import hashlib
+import glob
 import json
 import os
 import random
@@ -289,6 +290,8 @@ def finish(prop_id, tier, seed, level, proof, result, t0, design_ref=""):
     for cls, (k, v) in sorted(known_hit.items()):
         lines.append("KNOWN-FINDING: property=%s %s [class=%s]" % (prop_id, k.get("description", v.what), cls))
     n = 0
+    for old_rp in glob.glob(os.path.join(rdir, "%s-*.json" % tier)):
+        os.unlink(old_rp)          # replays of earlier runs of this tier are stale
     concrete = [v for v in new_viol if not v.nofail]
     shown = concrete[:5] if concrete else new_viol[:2]
     for v in shown:
